@@ -131,6 +131,11 @@ def run(level='quick'):
         cmp('strip %r' % s, _pad(s, 2).strip(), s.strip())
         cmp('lstrip %r' % s, _pad(s, 2).lstrip(), s.lstrip())
         cmp('rstrip %r' % s, _pad(s, 2).rstrip(), s.rstrip())
+    for s in ['', 'a', 'aba', 'bab', 'abba', 'xyz']:
+        for o, n in (('a', 'b'), ('b', 'a'), ('a', 'a'), ('q', 'a')):
+            cmp('replace %r %r->%r' % (s, o, n), _pad(s, 2).replace(o, n), s.replace(o, n))
+            cmp('replace bytes %r %r->%r' % (s, o, n), _pad(s.encode(), 2).replace(o.encode(), n.encode()),
+                s.encode().replace(o.encode(), n.encode()))
     for s in ['', 'abc', 'a\x7f']:
         cmp('encode ascii %r' % s, BStr.lit(s).encode('ascii'), s.encode('ascii'))
         cmp('decode ascii %r' % s, BStr.lit(s.encode()).decode('ascii'), s)
